@@ -105,112 +105,170 @@ def _helpers():
     return {k: (v[0], v[1]) for k, v in hs.items()}
 
 
+async def _one(case, token, obs):
+    """One request on fresh streams, started now; event / completion ticks relative to the start."""
+    import anyio
+    from chuk_mcp.protocol.messages.send_message import send_message, CancelledError
+    from chuk_mcp.protocol.types.errors import RetryableError, NonRetryableError
+
+    loop = __import__("asyncio").get_running_loop()
+    t0 = loop.ticks
+    in_send, in_recv = anyio.create_memory_object_stream(math.inf)
+    out_send, out_recv = anyio.create_memory_object_stream(math.inf)
+    writes = []
+    # a caller-supplied id is known up front; a falsy one ("" / 0) makes send_message generate
+    # its own, so the id is then read from the request that is actually written
+    preset = _idval(case["id"], {}) if case.get("id") is not None and not case.get("helper") else None
+    ctx = {"id": preset if preset else None, "tok": None}
+
+    def drain():
+        while True:
+            try:
+                m = out_recv.receive_nowait()
+            except anyio.WouldBlock:
+                break
+            except Exception:
+                break
+            d = m.model_dump(exclude_none=True) if hasattr(m, "model_dump") else m
+            writes.append(d)
+            if isinstance(d, dict) and "id" in d and d.get("method") and d.get("method") != "notifications/cancelled":
+                if ctx["id"] is None:
+                    ctx["id"] = d["id"]
+                meta = (d.get("params") or {}).get("_meta") or {}
+                # the request's own progress token exists only when a callback was supplied
+                ctx["tok"] = meta.get("progressToken") if case.get("progress") else None
+
+    cbs = []
+    raises = set(case.get("cbRaises") or [])
+
+    async def cb(progress, total, message):
+        k = len(cbs)
+        cbs.append([progress, total, message])
+        if k in raises:
+            raise RuntimeError("callback failure (scripted)")
+
+    def fire(ev):
+        def f():
+            drain()
+            try:
+                in_send.send_nowait(build_event(ev, ctx))
+            except Exception as ex:  # scripted event could not be built: harness problem
+                obs.setdefault("harness_errors", []).append(repr(ex))
+        return f
+
+    for a, ev in case["ev"]:
+        loop.at(t0 + a, fire(ev))
+
+    D_s = case["D"] * vloop.TICK
+    helper = case.get("helper")
+    try:
+        if helper:
+            fn, _kind = _helpers()[helper]
+            res = await fn(in_recv, out_send, D_s)
+        else:
+            kwargs = {}
+            if case.get("id") is not None:
+                kwargs["message_id"] = _idval(case["id"], {})
+            if token is not None:
+                kwargs["cancellation_token"] = token
+            if case.get("progress"):
+                kwargs["progress_callback"] = cb
+            params = case.get("params")
+            if params is not None:
+                import copy
+                params = copy.deepcopy(params)
+            res = await send_message(in_recv, out_send, case.get("method", "tools/list"), params, timeout=D_s, **kwargs)
+        obs["outcome"] = "returned"
+        if hasattr(res, "model_dump"):
+            res = {"__model__": type(res).__name__, "dump": res.model_dump(by_alias=True, exclude_none=True)}
+        obs["p"] = res
+    except TimeoutError:
+        obs["outcome"] = "timeout"
+    except CancelledError:
+        obs["outcome"] = "cancelled"
+    except (RetryableError, NonRetryableError) as ex:
+        obs["outcome"] = "raised"
+        obs["retryable"] = isinstance(ex, RetryableError)
+        obs["code"] = ex.code
+        obs["text"] = str(ex)
+    except Exception as ex:  # any other exception type
+        obs["outcome"] = "exception"
+        obs["exc"] = type(ex).__name__
+        obs["text"] = str(ex)[:200]
+    obs["t"] = loop.ticks - t0
+    obs["start"] = t0
+    drain()
+    obs["writes"] = writes
+    obs["cbs"] = cbs
+    obs["sent_id"] = ctx["id"]
+    obs["tok"] = ctx["tok"]
+    return obs
+
+
 def run_case(case):
     """Execute one scripted history on the real code.  Returns the observation dict."""
-    import anyio
-    from chuk_mcp.protocol.messages.send_message import send_message, CancellationToken, CancelledError
-    from chuk_mcp.protocol.types.errors import RetryableError, NonRetryableError
+    from chuk_mcp.protocol.messages.send_message import CancellationToken
 
     obs = {}
 
     async def main():
         loop = __import__("asyncio").get_running_loop()
-        in_send, in_recv = anyio.create_memory_object_stream(math.inf)
-        out_send, out_recv = anyio.create_memory_object_stream(math.inf)
-        writes = []
-        # a caller-supplied id is known up front; a falsy one ("" / 0) makes send_message generate
-        # its own, so the id is then read from the request that is actually written
-        preset = _idval(case["id"], {}) if case.get("id") is not None and not case.get("helper") else None
-        ctx = {"id": preset if preset else None, "tok": None}
-
-        def drain():
-            while True:
-                try:
-                    m = out_recv.receive_nowait()
-                except anyio.WouldBlock:
-                    break
-                except Exception:
-                    break
-                d = m.model_dump(exclude_none=True) if hasattr(m, "model_dump") else m
-                writes.append(d)
-                if isinstance(d, dict) and "id" in d and d.get("method") and d.get("method") != "notifications/cancelled":
-                    if ctx["id"] is None:
-                        ctx["id"] = d["id"]
-                    meta = (d.get("params") or {}).get("_meta") or {}
-                    # the request's own progress token exists only when a callback was supplied
-                    ctx["tok"] = meta.get("progressToken") if case.get("progress") else None
-
         token = CancellationToken() if (case.get("hasToken") or case.get("pre") or case.get("cancelAt") is not None) else None
         if token is not None and case.get("pre"):
             token.cancel()
-        cbs = []
-        raises = set(case.get("cbRaises") or [])
-
-        async def cb(progress, total, message):
-            k = len(cbs)
-            cbs.append([progress, total, message])
-            if k in raises:
-                raise RuntimeError("callback failure (scripted)")
-
-        def fire(ev):
-            def f():
-                drain()
-                try:
-                    in_send.send_nowait(build_event(ev, ctx))
-                except Exception as ex:  # scripted event could not be built: harness problem
-                    obs.setdefault("harness_errors", []).append(repr(ex))
-            return f
-
-        for a, ev in case["ev"]:
-            loop.at(a, fire(ev))
         if case.get("cancelAt") is not None:
             loop.at(case["cancelAt"], token.cancel)
-
-        D_s = case["D"] * vloop.TICK
-        helper = case.get("helper")
-        try:
-            if helper:
-                fn, _kind = _helpers()[helper]
-                res = await fn(in_recv, out_send, D_s)
-            else:
-                kwargs = {}
-                if case.get("id") is not None:
-                    kwargs["message_id"] = _idval(case["id"], {})
-                if token is not None:
-                    kwargs["cancellation_token"] = token
-                if case.get("progress"):
-                    kwargs["progress_callback"] = cb
-                params = case.get("params")
-                if params is not None:
-                    import copy
-                    params = copy.deepcopy(params)
-                res = await send_message(in_recv, out_send, case.get("method", "tools/list"), params, timeout=D_s, **kwargs)
-            obs["outcome"] = "returned"
-            if hasattr(res, "model_dump"):
-                res = {"__model__": type(res).__name__, "dump": res.model_dump(by_alias=True, exclude_none=True)}
-            obs["p"] = res
-        except TimeoutError:
-            obs["outcome"] = "timeout"
-        except CancelledError:
-            obs["outcome"] = "cancelled"
-        except (RetryableError, NonRetryableError) as ex:
-            obs["outcome"] = "raised"
-            obs["retryable"] = isinstance(ex, RetryableError)
-            obs["code"] = ex.code
-            obs["text"] = str(ex)
-        except Exception as ex:  # any other exception type
-            obs["outcome"] = "exception"
-            obs["exc"] = type(ex).__name__
-            obs["text"] = str(ex)[:200]
-        obs["t"] = loop.ticks
-        drain()
-        obs["writes"] = writes
-        obs["cbs"] = cbs
-        obs["sent_id"] = ctx["id"]
-        obs["tok"] = ctx["tok"]
+        await _one(case, token, obs)
 
     vloop.run(main, tie=case.get("tie", "events"))
     return obs
+
+
+def run_seq(case):
+    """Several requests sharing ONE CancellationToken: `mode` "seq" = one after the other (idle
+    `gaps[i]` ticks in between), "par" = all started at tick 0 as concurrent tasks, each on its own
+    stream pair.  `fire` = absolute tick at which the token is cancelled (None: never; 0 with
+    `fireBefore`: before the first call).  Returns the list of per-request observations."""
+    import anyio
+    from chuk_mcp.protocol.messages.send_message import CancellationToken
+
+    out = [dict() for _ in case["reqs"]]
+
+    async def main():
+        loop = __import__("asyncio").get_running_loop()
+        token = CancellationToken()
+        fire = case.get("fire")
+        if fire is not None:
+            if fire == 0:
+                token.cancel()
+            else:
+                loop.at(fire, token.cancel)
+        if case.get("mode") == "par":
+            async with anyio.create_task_group() as tg:
+                for sub, o in zip(case["reqs"], out):
+                    tg.start_soon(_one, sub, token, o)
+        else:
+            gaps = case.get("gaps") or []
+            for i, (sub, o) in enumerate(zip(case["reqs"], out)):
+                await _one(sub, token, o)
+                g = gaps[i] if i < len(gaps) else 0
+                if g:
+                    await anyio.sleep(g * vloop.TICK)
+
+    vloop.run(main, tie=case.get("tie", "events"))
+    return out
+
+
+def seq_model_line(case, obs_list, poll_ticks=P_TICKS_DEFAULT):
+    """Driver line for a shared-token case ("par": one sequence of length 1 per request)."""
+    subs = []
+    for sub, o in zip(case["reqs"], obs_list):
+        sub = dict(sub, tie=case.get("tie", "events"))
+        line = model_line(sub, o, poll_ticks)
+        line.pop("m")
+        subs.append(line)
+    return {"m": "await", "seq": subs, "gaps": case.get("gaps") or [], "fire": case.get("fire"), "start": 0,
+            "par": case.get("mode") == "par"}
 
 
 def model_line(case, obs, poll_ticks=P_TICKS_DEFAULT):
